@@ -362,6 +362,14 @@ func TestC06Kick(t *testing.T) {
 				if tg.option != 0 {
 					fs = append(fs, fld(hlref.FOptions, hlref.BE16(tg.option)))
 				}
+				if tg.protected && rapid.IntRange(0, 2).Draw(rt, fmt.Sprintf("wideUserID%d", i)) == 0 {
+					// some clients send integers four bytes wide: however the server takes such a user id, the protected user stays.
+					// (The request comes from an administrator connection of its own: what happens to the requester is its own business.)
+					fs[0] = fld(hlref.FUserID, hlref.BE32(id))
+					wide := loginAs(rt, w, fmt.Sprintf("10.0.9.%d:1", i+1), "admin", "adminpw", "admin-wide")
+					wide.Request(hlref.TranDisconnectUser, fs...)
+					continue
+				}
 				r := admin.Request(hlref.TranDisconnectUser, fs...)
 				if !tg.protected && !okReply(r) {
 					rt.Fatalf("disconnect of unprotected user t%d refused", i)
